@@ -26,6 +26,7 @@ type Case struct {
 	Skel geomgen.Skel
 	Rot  int
 	Pair []int
+	Many int `json:",omitempty"` // > 0: a geometry of the skeleton's kind with this many members (vertices for flat kinds)
 }
 
 func build(c Case) geom.Geom {
@@ -40,6 +41,41 @@ func build(c Case) geom.Geom {
 		}
 		i++
 		return v
+	}
+	if c.Many > 0 {
+		pt := func() geom.Point { x := val(); y := val(); return geom.Point{X: x, Y: y} }
+		switch c.Skel.Kind {
+		case geomgen.KMultiPoint:
+			o := make(geom.MultiPoint, c.Many)
+			for k := range o {
+				o[k] = pt()
+			}
+			return o
+		case geomgen.KLineString:
+			o := make(geom.LineString, c.Many)
+			for k := range o {
+				o[k] = pt()
+			}
+			return o
+		case geomgen.KMultiLineString:
+			o := make(geom.MultiLineString, c.Many)
+			for k := range o {
+				o[k] = geom.LineString{pt(), pt()}
+			}
+			return o
+		case geomgen.KPolygon:
+			o := make(geom.Polygon, c.Many)
+			for k := range o {
+				o[k] = geom.Path{pt(), pt(), pt()}
+			}
+			return o
+		default:
+			o := make(geom.MultiPolygon, c.Many)
+			for k := range o {
+				o[k] = geom.Polygon{{pt(), pt(), pt()}}
+			}
+			return o
+		}
 	}
 	return geomgen.Build(c.Skel, func() geom.Point { x := val(); y := val(); return geom.Point{X: x, Y: y} })
 }
@@ -272,7 +308,7 @@ func main() {
 		return
 	}
 	r := report.New("C17", tier, "model_checking")
-	r.Rule = "E1: every structure tree of the five WKT-encodable types with 1..3 members and 1..3(4) vertices per member x every rotation of 19 finite float64 patterns (full product for points, each pattern repeated on consecutive vertices, and every ordered pattern pair alternating between neighbouring vertices in the same ordinate): the text must be accepted by an independent recursive-descent parser of the OGC WKT grammar and parse to the same type, nesting and bit-identical coordinates; the bytes returned by Encode unchanged by later Encode calls (two- and three-call histories); MultiPoint, GeometryCollection and *Bounds must be rejected with an error. Non-trivial = geometries with >= 2 members."
+	r.Rule = "E1: every structure tree of the five WKT-encodable types with 1..3 members and 1..3(4) vertices per member x every rotation of 19 finite float64 patterns (full product for points, each pattern repeated on consecutive vertices, and every ordered pattern pair alternating between neighbouring vertices in the same ordinate): the text must be accepted by an independent recursive-descent parser of the OGC WKT grammar and parse to the same type, nesting and bit-identical coordinates; the bytes returned by Encode unchanged by later Encode calls (two- and three-call histories); geometries of 63..1000 members / vertices; MultiPoint, GeometryCollection and *Bounds must be rejected with an error. Non-trivial = geometries with >= 2 members."
 	cfg := geomgen.Config{MaxMembers: 3, Lens: []int{1, 2, 3}, FlatMax: 3, PolyRings: 2}
 	if tier == "thorough" {
 		cfg = geomgen.Config{MaxMembers: 3, Lens: []int{1, 2, 3, 4}, FlatMax: 5, PolyRings: 3}
@@ -384,6 +420,21 @@ func main() {
 		n++
 	}
 	_ = math.Pi
+	// many members: counts around 64 and beyond (a decoder or encoder may switch
+	// strategy with the size)
+	for _, kind := range []geomgen.Kind{geomgen.KLineString, geomgen.KMultiLineString, geomgen.KPolygon, geomgen.KMultiPolygon} {
+		for _, sz := range []int{63, 64, 65, 100, 257, 1000} {
+			c := Case{Skel: geomgen.Skel{Kind: kind}, Rot: sz % 19, Many: sz}
+			n++
+			nontrivial++
+			if sym, det := check(c); sym != "" {
+				if len(det) > 300 {
+					det = det[:300]
+				}
+				r.Violation(fmt.Sprintf("%s|%s|many-members", sym, kind), map[string]interface{}{"case": c, "observed": det})
+			}
+		}
+	}
 	if r.Expired() {
 		r.Cap("wall budget expired")
 	}
